@@ -595,6 +595,20 @@ class NF:
         nm = "and" if isinstance(e.op, ast.And) else "or"
         return Poly.atom(f"{nm}(" + ", ".join(sorted(p.canon() for p in parts)) + ")", deps)
 
+    def _e_JoinedStr(self, e, sc, at, depth):
+        parts, deps = [], frozenset()
+        if len(e.values) == 1 and isinstance(e.values[0], ast.FormattedValue) and e.values[0].format_spec is None and e.values[0].conversion == -1:
+            return self.poly(e.values[0].value, sc, at, depth)  # f"{x}" is str(x): same identity for path comparisons
+        for v in e.values:
+            if isinstance(v, ast.Constant):
+                parts.append(repr(v.value))
+            elif isinstance(v, ast.FormattedValue):
+                p = self.poly(v.value, sc, at, depth)
+                deps |= p.deps
+                spec = ast.unparse(v.format_spec) if v.format_spec is not None else ""
+                parts.append("{" + p.canon() + (":" + spec if spec else "") + "}")
+        return Poly.atom("fstr(" + "".join(parts) + ")", deps)
+
     def _e_Lambda(self, e, sc, at, depth):
         return Poly.atom(f"λ[{ast.unparse(e)}]")
 
